@@ -59,8 +59,26 @@ type Outcome struct {
 	GuardBad string // "" when all guard dwords are intact
 }
 
-// Launch runs the program once on the platform and reads the outputs back.
+// Launch runs the program once on the platform and reads the outputs back. The engine runs
+// on the calling goroutine (plat.Platform.Run).
 func Launch(pl *plat.Platform, p *Program, c *Compiled, rs RunSpec) (*Outcome, error) {
+	return launch(pl, p, c, rs, nil)
+}
+
+// LaunchThreaded does the same through the driver's own threads: the caller must have
+// called pl.Driver.Run(); the queue is drained with DrainCommandQueue after the copies in,
+// after the kernel and after the copies out (three hand-offs between the application
+// thread and the simulation thread).
+func LaunchThreaded(pl *plat.Platform, p *Program, c *Compiled, rs RunSpec) (*Outcome, error) {
+	return launch(pl, p, c, rs, func(q *driver.CommandQueue) { pl.Driver.DrainCommandQueue(q) })
+}
+
+// LaunchWith is LaunchThreaded with a caller-supplied drain function.
+func LaunchWith(pl *plat.Platform, p *Program, c *Compiled, rs RunSpec, drain func(*driver.CommandQueue)) (*Outcome, error) {
+	return launch(pl, p, c, rs, drain)
+}
+
+func launch(pl *plat.Platform, p *Program, c *Compiled, rs RunSpec, drain func(*driver.CommandQueue)) (*Outcome, error) {
 	d := pl.Driver
 	ctx := d.Init()
 	dev := rs.GPUs[0]
@@ -106,12 +124,20 @@ func Launch(pl *plat.Platform, p *Program, c *Compiled, rs RunSpec) (*Outcome, e
 		Out0: dOut[0] + GuardDwords*4, Out1: dOut[1] + GuardDwords*4,
 		In0: dIn[0], In1: dIn[1],
 	}
+	if drain != nil {
+		drain(q)
+	}
 	d.EnqueueLaunchKernel(q, c.CodeObject(), p.Geo.Grid, p.Geo.WG, args)
+	if drain != nil {
+		drain(q)
+	}
 	back := [2][]uint32{make([]uint32, total), make([]uint32, total)}
 	for k := 0; k < 2; k++ {
 		d.EnqueueMemCopyD2H(q, back[k], dOut[k])
 	}
-	if err := pl.Run(q); err != nil {
+	if drain != nil {
+		drain(q)
+	} else if err := pl.Run(q); err != nil {
 		return nil, err
 	}
 	o := &Outcome{}
